@@ -1,0 +1,132 @@
+// SPDX-FileCopyrightText: 2023 The Pion community <https://pion.ly>
+// SPDX-License-Identifier: MIT
+
+//go:build verif
+
+package rtcp
+
+// Machine-checked contracts (Gobra-style //@ clauses) for the functions of this package.
+// This file is comment-only apart from the package clause and is compiled only with the build tag "verif".
+// The verifier (/verif/govc) reads the blocks below, generates verification conditions from the real
+// function bodies (go/ssa) and discharges them with SMT solvers. Clause tags [Cxx] name the properties
+// of /verif/properties.jsonl a clause supports.
+
+// ===================================================================================================
+// header.go
+// ===================================================================================================
+
+//@ func (h Header) Marshal() (result []byte, err error)
+//@   safety[C09,C17]
+//@   fresh
+//@   ensures[C03,C05,C08,C16] ok: (err == nil) <==> h.Count <= 31
+//@   ensures[C03,C05,C16] layout: err == nil ==> len(result) == 4 && be32(result, 0) == specHeaderWord(h.Padding, h.Count, uint8(h.Type), h.Length)
+//@   ensures[C08] nobytes: err != nil ==> len(result) == 0
+
+//@ func (h *Header) Unmarshal(rawPacket []byte) (err error)
+//@   safety[C01]
+//@   modifies *h
+//@   nocap
+//@   ensures[C01,C04,C07,C16] ok: (err == nil) <==> (len(rawPacket) >= 4 && rawPacket[0]>>6 == 2)
+//@   ensures[C04,C07,C16] fields: err == nil ==> h.Padding == (rawPacket[0]>>5&1 == 1) && h.Count == rawPacket[0]&31 && uint8(h.Type) == rawPacket[1] && h.Length == be16(rawPacket, 2)
+
+// ===================================================================================================
+// reception_report.go
+// ===================================================================================================
+
+//@ func (r ReceptionReport) Marshal() (result []byte, err error)
+//@   safety[C09]
+//@   fresh
+//@   ensures[C08,C16] ok: (err == nil) <==> r.TotalLost < 1<<24
+//@   ensures[C03,C05,C16] layout: err == nil ==> len(result) == 24 && specRREncoded(result, 0, r)
+//@   ensures[C08] nobytes: err != nil ==> len(result) == 0
+
+//@ func (r *ReceptionReport) Unmarshal(rawPacket []byte) (err error)
+//@   safety[C01]
+//@   modifies *r
+//@   nocap
+//@   ensures[C01,C04,C16] ok: (err == nil) <==> len(rawPacket) >= 24
+//@   ensures[C04,C16] fields: err == nil ==> *r == specRRDecode(rawPacket, 0)
+
+//@ func (r *ReceptionReport) len() (result int)
+//@   ensures result == 24
+
+// ===================================================================================================
+// sender_report.go
+// ===================================================================================================
+
+//@ func (r *SenderReport) Unmarshal(rawPacket []byte) (err error)
+//@   safety[C01]
+//@   modifies *r
+//@   nocap
+//@   allocates[C01] 64 + 2*len(rawPacket)
+//@   ensures[C07] type: err == nil ==> rawPacket[1] == 200 && rawPacket[0]>>6 == 2
+//@   ensures[C04] count: err == nil ==> len(r.Reports) == int(rawPacket[0]&31) && len(rawPacket) >= 28+24*len(r.Reports)
+//@   ensures[C04] fixed: err == nil ==> r.SSRC == be32(rawPacket, 4) && r.NTPTime == be64(rawPacket, 8) && r.RTPTime == be32(rawPacket, 16) && r.PacketCount == be32(rawPacket, 20) && r.OctetCount == be32(rawPacket, 24)
+//@   ensures[C04] reports: forall k :: err == nil && 0 <= k && k < len(r.Reports) ==> r.Reports[k] == specRRDecode(rawPacket, 28+24*k)
+//@   ensures[C04,C06] ext: err == nil ==> seqEq(r.ProfileExtensions, rawPacket[28+24*len(r.Reports):])
+//@   ensures[C04] inflated: len(rawPacket) >= 4 && 28+24*int(rawPacket[0]&31) > len(rawPacket) ==> err != nil
+//@   ensures[C04] accepts: len(rawPacket) >= 28+24*int(rawPacket[0]&31) && rawPacket[0]>>6 == 2 && rawPacket[1] == 200 ==> err == nil
+//@   loop 1
+//@     invariant 0 <= i && i <= int(h.Count) && i == len(r.Reports) && offset == 24+24*i && offset <= len(packetBody)
+//@     invariant unchanged(r.SSRC) && unchanged(r.NTPTime) && unchanged(r.RTPTime) && unchanged(r.PacketCount) && unchanged(r.OctetCount) && unchanged(r.ProfileExtensions)
+//@     invariant[C04] forall k :: 0 <= k && k < len(r.Reports) ==> r.Reports[k] == specRRDecode(rawPacket, 28+24*k)
+//@     decreases int(h.Count) - i
+
+//@ func (r *SenderReport) MarshalSize() (result int)
+//@   safety[C09,C17]
+//@   ensures size: result == 28 + 24*len(r.Reports) + len(r.ProfileExtensions) + specPad4(len(r.ProfileExtensions))
+//@   loop 1
+//@     invariant repsLength == 24*iter() && 0 <= iter() && iter() <= len(r.Reports)
+//@     decreases len(r.Reports) - iter()
+
+//@ func (r *SenderReport) Header() (result Header)
+//@   safety[C09,C17]
+//@   ensures hdr: result == Header{Padding: false, Count: uint8(len(r.Reports)), Type: TypeSenderReport, Length: uint16((28+24*len(r.Reports)+len(r.ProfileExtensions)+specPad4(len(r.ProfileExtensions)))/4 - 1)}
+
+//@ func (r SenderReport) Marshal() (result []byte, err error)
+//@   safety[C09]
+//@   fresh
+//@   ensures[C08] count: err == nil ==> len(r.Reports) <= 31
+//@   ensures[C08] lost: forall k :: err == nil && 0 <= k && k < len(r.Reports) ==> r.Reports[k].TotalLost < 1<<24
+//@   ensures[C08] complete: exists k :: err != nil ==> len(r.Reports) > 31 || (0 <= k && k < len(r.Reports) && r.Reports[k].TotalLost >= 1<<24)
+//@   ensures[C08] nobytes: err != nil ==> len(result) == 0
+//@   ensures[C03,C05] size: err == nil ==> len(result) == 28 + 24*len(r.Reports) + len(r.ProfileExtensions) + specPad4(len(r.ProfileExtensions))
+//@   ensures[C05] aligned: err == nil ==> len(result)%4 == 0
+//@   ensures[C03,C05,C07] header: err == nil && len(result) <= 4*65536 ==> be32(result, 0) == specHeaderWord(false, uint8(len(r.Reports)), 200, uint16(len(result)/4-1))
+//@   ensures[C03] fixed: err == nil ==> be32(result, 4) == r.SSRC && be64(result, 8) == r.NTPTime && be32(result, 16) == r.RTPTime && be32(result, 20) == r.PacketCount && be32(result, 24) == r.OctetCount
+//@   ensures[C03] reports: forall k :: err == nil && 0 <= k && k < len(r.Reports) ==> specRREncoded(result, 28+24*k, r.Reports[k])
+//@   ensures[C03] ext: forall k :: err == nil && 0 <= k && k < len(r.ProfileExtensions) ==> result[28+24*len(r.Reports)+k] == r.ProfileExtensions[k]
+//@   ensures[C03] padzero: forall k :: err == nil && 28+24*len(r.Reports)+len(r.ProfileExtensions) <= k && k < len(result) ==> result[k] == 0
+//@   loop 1
+//@     invariant offset == 24+24*iter() && 0 <= iter() && iter() <= len(r.Reports)
+//@     invariant[C08] forall k :: 0 <= k && k < iter() ==> r.Reports[k].TotalLost < 1<<24
+//@     invariant[C03] be32(rawPacket, 4) == r.SSRC && be64(rawPacket, 8) == r.NTPTime && be32(rawPacket, 16) == r.RTPTime && be32(rawPacket, 20) == r.PacketCount && be32(rawPacket, 24) == r.OctetCount
+//@     invariant[C03] forall k :: 0 <= k && k < iter() ==> specRREncoded(rawPacket, 28+24*k, r.Reports[k])
+//@     invariant[C03] forall k :: 28+24*iter() <= k && k < len(rawPacket) ==> rawPacket[k] == 0
+//@     decreases len(r.Reports) - iter()
+
+//@ func (r *SenderReport) DestinationSSRC() (result []uint32)
+//@   safety[C09,C10]
+//@   fresh
+//@   ensures[C10] n: len(result) == len(r.Reports) + 1
+//@   ensures[C10] blocks: forall k :: 0 <= k && k < len(r.Reports) ==> result[k] == r.Reports[k].SSRC
+//@   ensures[C10] sender: result[len(r.Reports)] == r.SSRC
+//@   loop 1
+//@     invariant 0 <= iter() && iter() <= len(r.Reports)
+//@     invariant[C10] forall k :: 0 <= k && k < iter() ==> out[k] == r.Reports[k].SSRC
+//@     decreases len(r.Reports) - iter()
+
+//@ func (r SenderReport) String() (result string)
+//@   safety[C17]
+//@   loop 1
+//@     invariant 0 <= iter() && iter() <= len(r.Reports)
+//@     decreases len(r.Reports) - iter()
+
+// ===================================================================================================
+// util.go
+// ===================================================================================================
+
+//@ func getPadding(packetLen int) (result int)
+//@   safety[C01,C09,C17]
+//@   requires packetLen >= 0
+//@   ensures result == specPad4(packetLen)
